@@ -22,7 +22,9 @@ PDUBUF_BOUNDS = ('configurations <61,61>, <100,100>, <29,29> (each ring holds on
                  'histories of K connection events from reset_pdu_buffer(), every event fully symbolic (the shape of the first event is enumerated by case split): '
                  'quick: <29,29> K=3 with payload lengths symbolic in 1..27, <61,61> K=2 with symbolic lengths; '
                  'thorough: <29,29> K=4 symbolic lengths, <61,61> K=4 all payloads 27 bytes (ring fills after two PDUs) and K=3 symbolic lengths, <100,61> K=3 each payload 1 or 27 bytes, <100,100> with size 50 K=3 each payload 1 or 48 bytes; '
-                 'after the last event the host takes up to 2 more PDUs; payload identity is checked on header, first and last payload byte')
+                 'after the last event the host takes up to 2 more PDUs; payload identity is checked on header, first and last payload byte. '
+                 'Note: on <29,29> the receive ring accepts exactly one PDU per connection (after it was freed the ring is empty with front_ == end_ in the middle and alloc_front() finds no 29 contiguous bytes), '
+                 'so retransmissions reach received() only in the <61,61>/<100,*> cases')
 
 
 def shapes(prop):
@@ -53,4 +55,4 @@ def pdubuf_cases(prop, tier):
     for c in cs: c['PROP'] = prop
     return cs
 
-PDUBUF_KW = dict(unwind=10, timeout=900, diff_iters=400, diff_cases=4)
+PDUBUF_KW = dict(unwind=10, timeout=2400, diff_iters=400, diff_cases=4)
